@@ -12,6 +12,7 @@ family `copied_var`: a term that contains an unbound variable which is itself th
   yp.variable() as the control - is asserted (assert_fact / assertz / asserta, at depth 0 / 1 / twice); THEN the variable is
   bound to `a`. While the binding lasts and after it is undone the new fact must match `b` and `a` alike (exactly one answer each)
   and a query with a fresh variable must leave that variable unbound-or-bound-to-a-fresh-variable (never `a`).
+family `deep`: the variable sits behind 3 / 160 / 400 list cells or nested compounds of the asserted term.
 family `bound_nested`: the asserted term mentions a variable (top level, nested in compounds / a list, twice) that is bound - directly
   or through another variable - to an atom, a compound or a partial list when the fact is asserted; after the binding is undone and
   while the variable is bound to something else the fact matches exactly the value of that moment, at every depth.
@@ -243,7 +244,64 @@ def run_bound_nested(sc):
     return not probs, '; '.join(probs[:4]) or 'ok'
 
 
+def run_deep(sc):
+    """copy semantics hold at every depth: an unbound variable far down a long list / deep inside nested compounds of an asserted
+    term is the fact's own - binding the asserting variable afterwards changes nothing, two uses do not constrain each other"""
+    yp = engine.YP()
+    V = yp.variable()
+    n = sc['n']
+    if sc['shape'] == 'list':
+        t = yp.makelist([yp.atom('e')] * n + [V])
+    else:
+        t = V
+        for _ in range(n):
+            t = yp.functor('g', [t])
+    do_assert(yp, sc['how'], 'deep', [t])
+
+    def instance(x):
+        if sc['shape'] == 'list':
+            return yp.makelist([yp.atom('e')] * n + [x])
+        for _ in range(n):
+            x = yp.functor('g', [x])
+        return x
+    probs = []
+
+    def probe(tag):
+        for c in ('a', 'b'):
+            k = count(yp, 'deep', [instance(yp.atom(c))])
+            if k != 1:
+                probs.append('%s: the fact matches the instance with %s %d time(s), expected 1' % (tag, c, k))
+    probe('after the assertion')
+    for _ in engine.unify(V, yp.atom('a')):
+        probe('while the asserting variable is bound to a')
+    # two simultaneous uses
+    A, B = yp.variable(), yp.variable()
+    q1 = yp.query('deep', [instance(A)])
+    q2 = yp.query('deep', [instance(B)])
+    try:
+        next(q1)
+        for _ in engine.unify(A, yp.atom('a')):
+            try:
+                next(q2)
+                for _ in engine.unify(B, yp.atom('b')):
+                    pass
+                if engine.get_value(B) is not B and not isinstance(engine.get_value(B), engine.Variable):
+                    probs.append('the second use sees the first use\'s binding')
+                if sum(1 for _ in engine.unify(B, yp.atom('b'))) != 1:
+                    probs.append('two simultaneous uses of the fact constrain each other')
+            except StopIteration:
+                probs.append('second use of the fact finds nothing while the first is suspended')
+    except StopIteration:
+        probs.append('the fact does not match its own shape')
+    finally:
+        q1.close()
+        q2.close()
+    return not probs, '; '.join(sorted(set(probs))[:4]) or 'ok'
+
+
 def run(sc):
+    if sc['family'] == 'deep':
+        return run_deep(sc)
     if sc['family'] == 'bound_nested':
         return run_bound_nested(sc)
     return run_patterns(sc) if sc['family'] == 'patterns' else run_copied(sc)
@@ -264,6 +322,8 @@ def scenarios(seed, count):
         out.append(dict(family='copied_var', source=s, place=p, how=h))
     for sh, v, h, ch in itertools.product(NESTED_SHAPES, sorted(NESTED_VALUES), HOW, (False, True)):
         out.append(dict(family='bound_nested', shape=sh, value=v, how=h, chain=ch))
+    for shape, n, h in itertools.product(('list', 'nest'), (3, 160, 400), HOW):
+        out.append(dict(family='deep', shape=shape, n=n, how=h))
     random.Random(seed).shuffle(out)
     return out[:count] if count else out
 
